@@ -4,6 +4,7 @@ Property theorems (L1: join logic of direct_workflow.py as modelled in
 Mistral/Model/Join.lean, tied to the code by the `join` correspondence stream).
 -/
 import Mistral.Lemmas.Join
+import Mistral.Lemmas.EngineJoin
 
 namespace Mistral.Props.C04
 open Mistral Mistral.Join
@@ -239,5 +240,118 @@ example : (joinLogicalState fj [⟨"a", .SUCCESS, [("b", "on-success"), ("c", "o
     ⟨"b", .SUCCESS, [("j", "on-success")]⟩, ⟨"c", .ERROR, [("x", "on-error")]⟩] 10 "j" .all).map (·.state)
     = some .ERROR := by decide
 example : (inbound fj "j").isEmpty = false := by decide
+
+/-! ### engine level (Mistral.Engine, tied by the `core` stream) -/
+open Mistral.Engine in
+/-- "a join task … starts at most once per run however many branches trigger it" — first half:
+    however many branches trigger it, and whatever the delivery order, a join task never has
+    more than one execution row (`Task.defer` creates it only when none exists; every other
+    handler only updates rows in place).  Invariant: holds initially, preserved by every
+    event, hence in every reachable world. -/
+theorem join_created_once_step (sp : Spec) (w : World) (ev : Event) (h : JoinRowsUnique sp w) :
+    JoinRowsUnique sp (step sp w ev) := by
+  have hset : ∀ (w' : World) (r : TaskRow), JoinRowsUnique sp w' →
+      JoinRowsUnique sp { w' with tasks := setTask w'.tasks r } := fun w' r h' => JRU_setTask sp _ _ h'
+  cases ev with
+  | start =>
+    simp only [step]
+    split
+    · exact h
+    · exact dispatch_jru sp _ _ h
+  | pause => exact h
+  | stop t => exact h
+  | execute t ok => simp only [step]; split <;> exact h
+  | resume =>
+    simp only [step]
+    split
+    · exact h
+    · split
+      · exact h
+      · have hmark : JRU sp (w.tasks.map fun t =>
+            if isCompleted t.state && !t.processed then { t with processed := true } else t) := by
+          intro n hn
+          have : countL (w.tasks.map fun t =>
+              if isCompleted t.state && !t.processed then { t with processed := true } else t) n = countL w.tasks n := by
+            rw [countL_names, countL_names]
+            have hm : (w.tasks.map fun t =>
+                if isCompleted t.state && !t.processed then { t with processed := true } else t).map (·.name)
+                = w.tasks.map (·.name) := by
+              rw [List.map_map]
+              apply List.map_congr_left
+              intro t _
+              simp only [Function.comp]
+              split <;> rfl
+            rw [hm]
+          rw [this]; exact h n hn
+        split
+        · unfold JoinRowsUnique
+          rw [checkAndComplete_tasks]; exact hmark
+        · apply dispatch_jru
+          show JoinRowsUnique sp _
+          unfold JoinRowsUnique
+          show JRU sp (dispatch sp _ _).tasks
+          exact dispatch_jru sp _ _ hmark
+  | deliver it =>
+    simp only [step]
+    split
+    · exact h
+    · cases it with
+      | postStartTask t f => exact h
+      | postRunAction t => exact h
+      | runAction t => exact h
+      | postCheck => simp only; unfold JoinRowsUnique; rw [checkAndComplete_tasks]; exact h
+      | postSchedRefresh t => simp only; split <;> exact h
+      | rpcStartTask t firstRun =>
+        simp only
+        split
+        · exact h
+        · split
+          · split
+            · exact JRU_setTask sp _ _ h
+            · split
+              · split <;> exact h
+              · exact checkAffected_jru sp _ t h
+          · split
+            · exact h
+            · split
+              · exact h
+              · exact JRU_setTask sp _ _ h
+      | rpcResult t ok =>
+        simp only
+        split
+        · exact h
+        · exact completeTask_jru sp _ _ _ h
+      | jobRefresh t =>
+        simp only
+        split
+        · exact h
+        · split
+          · exact h
+          · split
+            · exact h
+            · split
+              · exact h
+              · split
+                · exact h
+                · split
+                  · split
+                    · exact JRU_setTask sp _ _ (JRU_setTask sp _ _ h)
+                    · exact JRU_setTask sp _ _ (JRU_setTask sp _ _ h)
+                  · split
+                    · exact completeTask_jru sp _ _ _ (JRU_setTask sp _ _ h)
+                    · exact JRU_setTask sp _ _ h
+
+open Mistral.Engine in
+theorem join_created_once_reachable (sp : Spec) (evs : List Event) :
+    JoinRowsUnique sp (run sp evs) := by
+  unfold run
+  have hall : ∀ (evs : List Event) (w : World), JoinRowsUnique sp w → JoinRowsUnique sp (evs.foldl (step sp) w) := by
+    intro evs
+    induction evs with
+    | nil => intro w h; exact h
+    | cons e rest ih => intro w h; exact ih _ (join_created_once_step sp w e h)
+  apply hall
+  intro n _
+  simp [init, countL]
 
 end Mistral.Props.C04
